@@ -76,7 +76,8 @@ TSpec == TInit /\ [][TNext]_tvars
 RecordProgress == TLCSet(1, IF l <= Len(TraceLog) /\ Ev.e = "Arrive" /\ Ev.id \in DOMAIN sent
                             THEN [l |-> l, inflight |-> Len(order), elapsed |-> now - sent[Ev.id][1],
                                   need |-> MinDelay(sent[Ev.id][2], sent[Ev.id][3], sent[Ev.id][4])]
-                            ELSE [l |-> l, inflight |-> Len(order)])
+                            ELSE [l |-> l, inflight |-> Len(order),
+                                  owed |-> (\E s \in Socks : us[s].aborting # <<>> \/ us[s].wop)])
 TraceAccepted == LET d == TLCGet("stats").diameter - 1 IN
                  /\ PrintT(<<"MATCHED", d, Len(TraceLog), ToJson(TLCGet(1))>>)
                  /\ d = Len(TraceLog)
